@@ -303,21 +303,26 @@ class TcpConnection():
 
 
     def test_connection(self) -> bool:
-        while True:
-            try:
-                self.sock.send(b"")
-                return True
+        """Tells whether the connection is up (True), is not going to come up
+        (False) or is still being set up (None: ask again later).
+        """
+        try:
+            self.sock.send(b"")
+            return True
 
-            except BlockingIOError:
-                #: The connection attempt is still in progress.
-                continue
+        except BlockingIOError:
+            #: The connection attempt is still in progress. The caller comes
+            #: back on its next tick: spinning here would keep it from
+            #: noticing anything else (a stop request, say) for as long as
+            #: the peer does not answer.
+            return None
 
-            except OSError as e:
-                #: Refused, reset, unreachable, ... (WSAENOTCONN 10057 on
-                #: Windows; ECONNREFUSED, then EPIPE, on Linux): the connection
-                #: is not going to come up.
-                self.connection_attempts -= self.connection_attempts
-                return False
+        except OSError as e:
+            #: Refused, reset, unreachable, ... (WSAENOTCONN 10057 on
+            #: Windows; ECONNREFUSED, then EPIPE, on Linux): the connection
+            #: is not going to come up.
+            self.connection_attempts -= self.connection_attempts
+            return False
 
 
 
